@@ -71,9 +71,9 @@ Definition ideal_set (sl : slot) (x : R) (s : spdc) : spdc :=
       mk_spdc (s_signal s) (s_idler s) (s_pump s) c (s_pp s) (s_pump_average_power s) x
         (s_pump_spectrum_threshold s) (s_signal_waist_position s) (s_idler_waist_position s) (s_deff s)
   | SPolingPeriod =>
-      (* magnitude |x| with the automatically derived sign, on a POLED description (assign_period semantics) *)
+      (* magnitude |x| with the automatically derived sign; an unpoled description becomes poled (with_period semantics) *)
       mk_spdc (s_signal s) (s_idler s) (s_pump s) c
-        (pp_assign_period (s_pp s) (sign_mul (compute_sign (s_signal s) (s_pump s) c) (Rabs x)))
+        (pp_with_period (s_pp s) (sign_mul (compute_sign (s_signal s) (s_pump s) c) (Rabs x)))
         (s_pump_average_power s) (s_pump_bandwidth s)
         (s_pump_spectrum_threshold s) (s_signal_waist_position s) (s_idler_waist_position s) (s_deff s)
   | SDeff =>
@@ -81,6 +81,10 @@ Definition ideal_set (sl : slot) (x : R) (s : spdc) : spdc :=
         (s_pump_spectrum_threshold s) (s_signal_waist_position s) (s_idler_waist_position s) x
   end.
 End Ideal.
+
+(* precondition under which the CURRENT code is claimed to implement a slot (finding: the poling-period setter ignores unpoled bases) *)
+Definition slot_pre (sl : slot) (s : spdc) : Prop :=
+  match sl with SPolingPeriod => s_pp s <> Off | _ => True end.
 
 (* lookup in an association list keyed by strings *)
 Fixpoint assoc {A : Type} (k : string) (l : list (string * A)) : option A :=
